@@ -214,6 +214,9 @@ def _group_tables(cx):
     import ginjax.geometric as geom
     from jxsmt import refs
     import math
+
+    def gkey(g):  # total: the tables may contain anything
+        return repr(np.asarray(g).tolist())
     for D in (1, 2, 3):
         ops = [np.asarray(g) for g in geom.make_all_operators(D)]
         keys = {gkey(g) for g in ops}
@@ -223,7 +226,7 @@ def _group_tables(cx):
         try:
             for g in ops:
                 refs.signed_perm(g)
-        except AssertionError:
+        except Exception:  # noqa: BLE001 - anything that is not a signed permutation
             sp = False
         cx.structural(f"tables.signed_perm[D={D}]", sp, "an operator is not a signed permutation matrix")
         closed = all(gkey(g @ h) in keys for g in ops for h in ops)
